@@ -351,7 +351,7 @@ fn run_cmp(v: &[u64]) {
 
 pub fn harnesses() -> Vec<H> {
     vec![
-        H { name: "flatstack_sequence", props: &["C03", "C09"], nargs: 8, pre: pre_fs, doms: doms_fs, run: run_fs, panic_ok: false,
+        H { name: "flatstack_sequence", props: &["C03"], nargs: 8, pre: pre_fs, doms: doms_fs, run: run_fs, panic_ok: false,
             bound: "FlatStack over SliceRegion<MirrorRegion<u8>>/Vec, ConsecutiveIndexPairs<OwnedRegion<u8>>/IndexOptimized and /IndexList: 0..4 items from a 4-value pool built by copy / extend / from_iter; get, iter, cloned iterator, size_hint, into_iter, reserve, clone, clear; out-of-bounds probe", kani: false },
         H { name: "index_containers", props: &["C05", "C19", "C08", "C10", "C18", "C01", "C02", "C03"], nargs: 7, pre: pre_ix, doms: doms_ix, run: run_ix, panic_ok: false,
             bound: "IndexOptimized, IndexList<Vec<u32>,Vec<u64>>, Vec<usize>: all sequences of length 0..4 over the 12-value transition alphabet {0,1,2,3,4,5,6,8,u32::MAX,u32::MAX+1,2^63,usize::MAX} by push or extend; index/len/iter/clone/reserve/clear/with_capacity; heap bytes equal the documented cost rule", kani: false },
